@@ -448,10 +448,21 @@ func c01RunTransports(c *kit.Ctx) {
 				}
 				ready <- r.name
 				buf := make([]byte, 70000)
-				for atomic.LoadInt32(&stop) == 0 {
+				var drainUntil time.Time
+				for {
+					if atomic.LoadInt32(&stop) != 0 {
+						if drainUntil.IsZero() {
+							drainUntil = time.Now().Add(5 * time.Second)
+						} else if time.Now().After(drainUntil) {
+							break // foreign traffic on the group can keep the socket busy for ever
+						}
+					}
 					mc.SetReadDeadline(time.Now().Add(500 * time.Millisecond))
 					k, _, err := mc.ReadFromUDP(buf)
 					if err != nil {
+						if atomic.LoadInt32(&stop) != 0 {
+							break // drained: what the socket still held when the run ended was read first (a lagging reader is not a cut-off member)
+						}
 						continue
 					}
 					if k >= 12 && binary.BigEndian.Uint32(buf[8:12]) != 0x5151 {
